@@ -538,7 +538,8 @@ fn run_component(name: &str, line: &str) -> String {
     // panics located in the harness sources themselves (relative path src/...) are not the crate's
     if (r.is_err() || !loc.is_empty()) && !loc.starts_with("HARNESS") {
         format!("panic:{}:{}", name, loc)
-    } else if ms > 4000 + (line.len() as u128) / 100 {
+    } else if ms > 1500 + (line.len() as u128) / 50 {
+        // CPU time of this thread: a synthetic component input is processed in micro- to milliseconds
         format!("slow:{}:{}", name, ms)
     } else if max_req > (256 << 20) + 64 * line.len() {
         format!("alloc:{}:{}MiB", name, max_req >> 20)
